@@ -87,12 +87,12 @@ class Flow:
             return Outcome(nxt=s)
         if k == "DeclStmt":
             for c in ks:
-                if c.get("kind") == "VarDecl":
+                if c.get("kind") == "VarDecl" and s is not None:
                     s = d.decl(c, s)
             return Outcome(nxt=s)
         if k == "ReturnStmt":
             if ks:
-                s = d.eval(ks[0], s)
+                s = d.eval_ret(ks[0], s) if hasattr(d, "eval_ret") else d.eval(ks[0], s)
             if s is not None:
                 d.ret(n, s)
             return Outcome()
